@@ -8,6 +8,7 @@ impl LabeledPolynomial {
     pub fn is_hiding(&self) -> (r: bool) ensures r == self.hiding_bound.is_some() { self.hiding_bound.is_some() }
     // Deref<Target = P>
     pub fn degree(&self) -> (r: usize) ensures r == self.polynomial.degree_spec(), !self.polynomial.is_zero_spec() ==> self.polynomial.wf() { self.polynomial.degree() }
+    pub fn is_zero(&self) -> (r: bool) ensures r == self.polynomial.is_zero_spec() { self.polynomial.is_zero() }
     pub fn coeffs(&self) -> (r: &[Fr]) ensures r@ == self.polynomial.coeffs@ { self.polynomial.coeffs() }
     pub fn evaluate(&self, point: &Fr) -> (r: Fr) ensures r@ == self.polynomial.ev(point@) { self.polynomial.evaluate(point) }
 }
